@@ -52,4 +52,15 @@ m = {
     "notes": "See DESIGN.md. known_findings.json lists genuine defects (open and fixed). Repairs in /repo are the 'fix:' commits.",
 }
 json.dump(m, open(os.path.join(HERE, "MANIFEST.json"), "w"), indent=1)
+# known findings: merged from findings.d/*.json (lists of open findings; _fixed.json holds the repaired ones)
+import glob
+kf = {"open": [], "fixed": []}
+for fn in sorted(glob.glob(os.path.join(HERE, "findings.d", "*.json"))):
+    d = json.load(open(fn))
+    if isinstance(d, dict):
+        kf["fixed"] += d.get("fixed", [])
+        kf["open"] += d.get("open", [])
+    else:
+        kf["open"] += d
+json.dump(kf, open(os.path.join(HERE, "known_findings.json"), "w"), indent=1)
 print("MANIFEST.json: %d checks, %d not_applicable" % (len(checks), len(na)))
